@@ -1,6 +1,287 @@
-//! Property C07: correspondence and oracle (stub: nothing built yet).
-use crate::report::Report;
+//! Property C07: each Luau-lowering rule removes every occurrence of its construct.
+//!  (1) per rule: correspondence of the Lean rule model with the real `Rule::process` (trees
+//!      identical) and the ORACLE: an independent census over the wire tree of the REAL output = 0
+//!      (`luaucheck::sexp_census`, a plain S-expression traversal) and over the TEXT of the real
+//!      output (`luaucheck::text_census`, a small Luau-aware token scan);
+//!  (2) all nine rules together (fixed order = `lowerAll` of the Lean model, compared with it;
+//!      plus random orders): census of every rule = 0 and the dense / readable TEXT of the real
+//!      output accepted by the strict Lua 5.1 checker `lua51check` (own lexer + grammar);
+//!  (3) end to end through `darklua_core::process` with each generator: text accepted by `lua51check`.
+use crate::astsexp::{self, Sexp};
+use crate::exec;
+use crate::lua51check;
+use crate::luaucheck::{self, LuauCase, RULES};
+use crate::model::Model;
+use crate::progen::{self, Features};
+use crate::progen_c06;
+use crate::report::{Report, Violation};
+use crate::rng::Rng;
+use crate::rulecheck::{self, CaseResult};
+use darklua_core::generator::{DenseLuaGenerator, LuaGenerator, ReadableLuaGenerator};
+use darklua_core::rules::Rule;
+use serde_json::json;
 
-pub fn run(report: &mut Report, _replay: Option<&str>) {
-    report.notes.push("C07: no harness yet".to_owned());
+fn texts_of(block: &darklua_core::nodes::Block) -> Vec<(&'static str, String)> {
+    let mut dense = DenseLuaGenerator::default();
+    dense.write_block(block);
+    let mut readable = ReadableLuaGenerator::default();
+    readable.write_block(block);
+    vec![("dense", dense.into_string()), ("readable", readable.into_string())]
+}
+
+/// all nine rules on one program: census of every rule = 0 on the real tree, strict Lua 5.1 text
+fn all_together(model: &mut Model, report: &mut Report, code: &str, order: &[&str], compare_model: bool) {
+    let block0 = match exec::parse(code) {
+        Ok(b) => b,
+        Err(_) => return,
+    };
+    let sexp0 = astsexp::block_to_sexp(&block0);
+    // inside every rule's census hypothesis? (only remove_continue has one)
+    if !luaucheck::continue_in_loops(model, &sexp0) {
+        report.count("all_outside_hypothesis", 1);
+        return;
+    }
+    let rules: Vec<Box<dyn Rule>> = order.iter().map(|r| exec::rule_from_json(&format!("'{}'", r)).unwrap()).collect();
+    let mut block1 = block0.clone();
+    let mut truthy_table = "()".to_owned();
+    let applied = std::panic::catch_unwind(std::panic::AssertUnwindSafe(|| -> Result<(), String> {
+        for (name, rule) in order.iter().zip(rules.iter()) {
+            if *name == "remove_if_expression" {
+                truthy_table = luaucheck::truthy_table(&astsexp::block_to_sexp(&block1));
+            }
+            exec::apply_rules(&mut block1, std::slice::from_ref(rule), code)?;
+        }
+        Ok(())
+    }));
+    match applied {
+        Ok(Ok(())) => {}
+        Ok(Err(_)) => return,
+        Err(_) => {
+            report.violation(Violation {
+                kind: "oracle".into(),
+                check: "all:panic".into(),
+                what: "a lowering rule panicked".into(),
+                input: json!({"rules": order, "code": code}),
+                failing_input_found: true,
+            });
+            return;
+        }
+    }
+    let sexp1 = astsexp::block_to_sexp(&block1);
+    report.count("all_checked", 1);
+    if let Ok(tree1) = Sexp::parse(&sexp1) {
+        for rule in RULES.iter() {
+            let left = luaucheck::sexp_census(rule, &tree1);
+            if left != 0 {
+                report.violation(Violation {
+                    kind: "oracle".into(),
+                    check: format!("all:census:{}", rule),
+                    what: format!("after all nine rules {} occurrence(s) of the construct of {} remain", left, rule),
+                    input: json!({"rules": order, "code": code}),
+                    failing_input_found: true,
+                });
+            }
+        }
+    }
+    for (name, text) in texts_of(&block1) {
+        if let Err(e) = lua51check::check(&text) {
+            report.violation(Violation {
+                kind: "oracle".into(),
+                check: format!("all:lua51:{}", name),
+                what: format!("after all nine rules the {} text is not strict Lua 5.1: {}", name, e),
+                input: json!({"rules": order, "code": code, "output": text}),
+                failing_input_found: true,
+            });
+        }
+        report.count("lua51_text_checked", 1);
+    }
+    if compare_model {
+        let answer = model.ask(&format!("c06.all {} {}", sexp0, truthy_table));
+        if answer != sexp1 {
+            report.violation(Violation {
+                kind: "correspondence".into(),
+                check: "all:model".into(),
+                what: "Lean lowerAll and the real rules applied in the same order produce different trees".into(),
+                input: json!({"rules": order, "code": code}),
+                failing_input_found: false,
+            });
+        }
+        let lua51 = model.ask(&format!("c06.census luau {}", answer));
+        if lua51 != "0" {
+            report.violation(Violation {
+                kind: "correspondence".into(),
+                check: "all:islua51".into(),
+                what: format!("IsLua51 fails on the model's own output (census {})", lua51),
+                input: json!({"rules": order, "code": code}),
+                failing_input_found: false,
+            });
+        }
+    }
+}
+
+/// the real pipeline on memory resources: output text must be strict Lua 5.1
+fn end_to_end(report: &mut Report, code: &str, order: &[&str], generator: &str) {
+    let resources = darklua_core::Resources::from_memory();
+    resources.write("src/main.lua", code).unwrap();
+    let rule_list: Vec<String> = order.iter().map(|r| format!("'{}'", r)).collect();
+    let config_text = format!("{{ generator: '{}', rules: [{}] }}", generator, rule_list.join(", "));
+    let config: darklua_core::Configuration = json5::from_str(&config_text).expect("configuration");
+    let result = std::panic::catch_unwind(std::panic::AssertUnwindSafe(|| {
+        darklua_core::process(&resources, darklua_core::Options::new("src").with_configuration(config))
+    }));
+    let ok = match result {
+        Ok(Ok(r)) => r.result().is_ok(),
+        Ok(Err(_)) => false,
+        Err(_) => {
+            report.violation(Violation {
+                kind: "oracle".into(),
+                check: "e2e:panic".into(),
+                what: "darklua_core::process panicked".into(),
+                input: json!({"config": config_text, "code": code}),
+                failing_input_found: true,
+            });
+            return;
+        }
+    };
+    if !ok {
+        report.count("e2e_process_error", 1);
+        return;
+    }
+    let output = resources.get("src/main.lua").unwrap();
+    report.count("e2e_checked", 1);
+    if let Err(e) = lua51check::check(&output) {
+        report.violation(Violation {
+            kind: "oracle".into(),
+            check: format!("e2e:lua51:{}", generator),
+            what: format!("output of the pipeline with all nine rules is not strict Lua 5.1: {}", e),
+            input: json!({"config": config_text, "code": code, "output": output}),
+            failing_input_found: true,
+        });
+    }
+}
+
+fn one_program(model: &mut Model, r: &mut Report, rng: &mut Rng, code: &str) {
+    for rule in RULES.iter() {
+        let json_text = format!("'{}'", rule);
+        let case = LuauCase { rule_name: rule, rule_json: &json_text, model_name: rule, check_census: true, check_behaviour: false };
+        let result = luaucheck::check_program(model, r, &case, code);
+        match &result {
+            CaseResult::Fired => {
+                r.hist("rule_fired", rule);
+                r.case(Some((rule, code)));
+            }
+            CaseResult::Trivial => r.case(None::<u8>),
+            CaseResult::Skipped(why) => {
+                r.hist("skipped", why);
+                r.case(None::<u8>);
+            }
+        }
+        if r.samples.len() < 3 && result == CaseResult::Fired && rng.chance(1, 50) {
+            r.sample(json!({"rule": rule, "code": code}));
+        }
+    }
+    // the `tostring` strategy of remove_interpolated_string
+    let case = LuauCase {
+        rule_name: "remove_interpolated_string",
+        rule_json: "{ rule: 'remove_interpolated_string', strategy: 'tostring' }",
+        model_name: "remove_interpolated_string:tostring",
+        check_census: true,
+        check_behaviour: false,
+    };
+    luaucheck::check_program(model, r, &case, code);
+    r.case(None::<u8>);
+    // all together: fixed order (compared with the Lean lowerAll), then two random orders
+    all_together(model, r, code, &RULES, true);
+    for _ in 0..2 {
+        let mut order: Vec<&str> = RULES.to_vec();
+        rng.shuffle(&mut order);
+        all_together(model, r, code, &order, false);
+    }
+    r.case(None::<u8>);
+    if rng.chance(1, 3) {
+        let generator = *rng.pick(&["retain_lines", "dense", "readable"]);
+        let mut order: Vec<&str> = RULES.to_vec();
+        if rng.chance(1, 2) {
+            rng.shuffle(&mut order);
+        }
+        if luaucheck::continue_in_loops_code(model, code) {
+            end_to_end(r, code, &order, generator);
+        }
+    }
+}
+
+fn corpus(dir: &str) -> Vec<(String, String)> {
+    let path = format!("{}/../corpus/{}", env!("CARGO_MANIFEST_DIR"), dir);
+    let mut out = Vec::new();
+    if let Ok(entries) = std::fs::read_dir(&path) {
+        let mut files: Vec<_> = entries.filter_map(|e| e.ok()).map(|e| e.path()).collect();
+        files.sort();
+        for f in files {
+            if f.extension().map(|e| e == "lua").unwrap_or(false) {
+                if let Ok(text) = std::fs::read_to_string(&f) {
+                    out.push((f.file_name().unwrap().to_string_lossy().to_string(), text));
+                }
+            }
+        }
+    }
+    out
+}
+
+pub fn run(report: &mut Report, replay: Option<&str>) {
+    report.rule = "corpus/C07/*.lua, then type-directed random Luau programs (progen Features::luau()) and the targeted \
+        generator progen_c06 (every construct in every syntactic position incl. nested in itself and hidden in typeof(…)); \
+        each program through each of the nine lowering rules alone (real Rule::process; tree compared with the Lean model; \
+        independent census of the construct over the wire tree and the dense text of the real output must be 0), through \
+        all nine in the model's order (compared with Lean lowerAll) and two random orders (census 0 for every rule, dense and \
+        readable text accepted by the strict Lua 5.1 checker), and end to end through darklua_core::process. \
+        Non-trivial = the rule changed the tree; distinct by (rule, program text)."
+        .to_owned();
+    if let Some(path) = replay {
+        let mut model = Model::spawn();
+        let mut rng = Rng::new(report.seed);
+        if let Ok(text) = std::fs::read_to_string(path) {
+            if let Ok(v) = serde_json::from_str::<serde_json::Value>(&text) {
+                if let Some(code) = v["input"]["code"].as_str() {
+                    one_program(&mut model, report, &mut rng, code);
+                }
+            }
+        }
+        return;
+    }
+    // known findings and corpus first
+    {
+        let mut model = Model::spawn();
+        luaucheck::replay_known_findings(&mut model, report, "C07");
+        let mut rng = Rng::new(report.seed);
+        for (name, code) in corpus("C07") {
+            report.hist("corpus", &name);
+            one_program(&mut model, report, &mut rng, &code);
+        }
+    }
+    let programs_per_thread: usize = if report.is_thorough() { 1500 } else { 150 };
+    let threads = 12;
+    let seed = report.seed;
+    report.parallel(threads, |tid, r| {
+        let mut model = Model::spawn();
+        let mut rng = Rng::new(seed.wrapping_mul(1000).wrapping_add(tid as u64));
+        for i in 0..programs_per_thread {
+            let code = if i % 3 == 0 {
+                let (code, used) = progen::generate(&mut rng.fork(), Features::luau(), 60);
+                for u in &used {
+                    r.hist("constructs", u);
+                }
+                r.hist("generator", "progen-luau");
+                code
+            } else {
+                let (code, tags) = progen_c06::generate(&mut rng.fork(), progen_c06::Opts::default(), 8);
+                for t in &tags {
+                    r.hist("shapes", t);
+                }
+                r.hist("generator", "progen_c06");
+                code
+            };
+            one_program(&mut model, r, &mut rng, &code);
+        }
+    });
+    let _ = rulecheck::LEVEL;
 }
